@@ -1169,8 +1169,8 @@ class Interp:
         e.update(kw)
         if kind == 'diverge':
             prev = self.effects.get(self.frames[0]['fn'], [])
-            if prev and prev[-1]['kind'] == 'diverge' and prev[-1].get('line') == e.get('line') and prev[-1]['in'] == e['in']:
-                return prev[-1]
+            if prev and prev[-1]['kind'] == 'diverge' and prev[-1].get('line') == e.get('line') and prev[-1]['in'] == e['in'] and prev[-1]['cond'] == e['cond']:
+                return prev[-1]         # the same exit seen twice (as a statement and as the value of its block)
         self.effects.setdefault(self.frames[0]['fn'], []).append(e)
         return e
 
@@ -1690,7 +1690,39 @@ class Interp:
         if p in ('syn::Index', 'Index') and any(f['name'] == 'index' for f in e['fields']):
             # syn::Index { index, span } prints the unsuffixed decimal literal `index`
             return unsuffixed([self.expr(f['expr'], env) for f in e['fields'] if f['name'] == 'index'][0])
-        return ('struct', p, {f['name']: self.expr(f['expr'], env) for f in e['fields']})
+        vals = {f['name']: self.expr(f['expr'], env) for f in e['fields']}
+        decl = self.c.structs.get(p)
+        if decl:
+            # a growable list kept in a field of a crate record (a builder: `Self { derives: vec![..] }` then `self.derives.push(..)` in chained
+            # setters): the list literal becomes an accumulator, so that later pushes through the record are seen
+            vec_fields = {fl.get('name') for fl in decl.get('fields', []) if fl.get('ty', '').replace(' ', '').startswith('Vec<')}
+            for fn_ in vec_fields & set(vals):
+                ent = self.list_entries(vals[fn_])
+                if ent is not None:
+                    aid = self.fresh('acc')
+                    pc = self.pathcond()
+                    self.accs[aid] = {'entries': [{'cond': c_ if pc == TRUE else (pc if c_ == TRUE else ('and', [pc, c_])), 'val': v_, 'loops': list(self.frame['loops']),
+                                                   'line': e['line'], 'fn': self.frame['callee']} for c_, v_ in ent],
+                                      'fn': self.frame['fn'], 'name': fn_, 'line': e['line']}
+                    vals[fn_] = ('acc', aid)
+        return ('struct', p, vals)
+
+    def list_entries(self, v, cond=TRUE, depth=0):
+        """[(condition, element)] of a list literal or a conditional choice of list literals (`if c { vec![a, b] } else { vec![a] }`), else None"""
+        if v[0] == 'tuple':
+            return [(cond, x) for x in v[1]]
+        if v[0] == 'alt' and depth < 4:
+            out, prior = [], []
+            for c, x in v[1]:
+                cc = [cond] if cond != TRUE else []
+                cc += [self.neg(p_) for p_ in prior] + ([c] if c != TRUE else [])
+                sub = self.list_entries(x, TRUE if not cc else cc[0] if len(cc) == 1 else ('and', cc), depth + 1)
+                if sub is None:
+                    return None
+                out.extend(sub)
+                prior.append(c)
+            return out
+        return None
 
     def e_Block(self, e, env, **kw):
         return self.block(e, env)
